@@ -292,7 +292,11 @@ fn decode_block_bytes(core: &Core, pc: u16, max: usize) -> Vec<u8> {
 pub fn run(ctx: &mut Ctx) {
   let kind = ctx.arg_str("kind").unwrap_or("c04").to_string();
   let role = ctx.arg_str("role").unwrap_or(if cfg!(feature = "jit") { "compare" } else { "write" }).to_string();
-  let dir = ctx.arg_str("streams").map(|s| s.to_string()).unwrap_or_else(|| format!("{}/streams", support::work_dir()));
+  // "stream-tag": a separate set of stream files for a pair of phases that slice the programs differently
+  let dir = ctx
+    .arg_str("streams")
+    .map(|s| s.to_string())
+    .unwrap_or_else(|| format!("{}/streams{}", support::work_dir(), ctx.arg_str("stream-tag").unwrap_or("")));
   let _ = std::fs::create_dir_all(&dir);
   let thorough = ctx.thorough();
   let seed = ctx.seed;
